@@ -292,3 +292,11 @@ def run(ctx):
     ctx.merge(shipped(ctx))
     n = 900 if ctx.quick else 12000
     ctx.pmap(_shard, [(ctx.seed, s, n, ctx.known) for s in range(16)])
+    from harness import fuzz
+
+    fuzz.campaign(ctx, "C08", ["numpy-debug"], runs=600 if ctx.quick else 30000, workers=8 if ctx.quick else 16)
+
+
+# ---- coverage-guided tier (harness/fuzz.py)
+def fuzz_strategy(variant):
+    return cases()
